@@ -825,7 +825,9 @@ def _rsync_dir_phase_ok():
             "if options.get('delete'):\n            for othername in os.listdir(path):\n                if othername not in entrynames:\n                    otherpath = os.path.join(path, othername)\n                    remove(otherpath)"]
     f, _ = _rsync_recv()
     rm = [n for n in f.body if isinstance(n, ast.FunctionDef) and n.name == "remove"]
-    ok = all(x in t for x in need) and len(rm) == 1 and "os.unlink(path)" in _src(rm[0]) and "shutil.rmtree(path, True)" in _src(rm[0])
+    ok = all(x in t for x in need) and len(rm) == 1
+    # remove(): unlink first (that is what removes a symlink, also one to a directory), rmtree only as the fall-back
+    ok = ok and [_src(x) for x in rm[0].body] == ["assert path.startswith(destdir)", "try:\n    os.unlink(path)\nexcept OSError:\n    shutil.rmtree(path, True)"]
     return "true" if ok else "false"
 
 
@@ -943,6 +945,22 @@ def _names_of(source: str, future_annotations: bool):
             rec(ch)
 
     rec(st)
+    # a name imported in a `try:` whose ImportError handler does not bind it is NOT defined on the fallback path (the path
+    # taken on an interpreter without execnet)
+    for node in t.body:
+        if isinstance(node, ast.Try):
+            handlers = [h for h in node.handlers if h.type is not None and "ImportError" in _src(h.type)]
+            if not handlers:
+                continue
+            tried = {(a.asname or a.name).split(".")[0] for n in node.body if isinstance(n, (ast.Import, ast.ImportFrom)) for a in n.names}
+            for h in handlers:
+                bound = set()
+                for n in h.body:
+                    if isinstance(n, (ast.Import, ast.ImportFrom)):
+                        bound |= {(a.asname or a.name).split(".")[0] for a in n.names}
+                    elif isinstance(n, ast.Assign):
+                        bound |= {x.id for tg in n.targets for x in ast.walk(tg) if isinstance(x, ast.Name)}
+                defs -= (tried - bound)
     return defs, uses
 
 
@@ -1237,7 +1255,8 @@ def _purity_check_shape_ok():
     """_source_of_function: lambda refused, first argument must be `channel`, closures refused, every ast.Name of the
     dedented source outside co_varnames and builtins refused, (firstlineno - 1) newlines prepended"""
     t = _src(find("gateway.py", "_source_of_function"))
-    need = ["if function.__name__ == '<lambda>':\n        raise ValueError(", "if not args or args[0] != 'channel':\n        raise ValueError(", "if closure is not None:\n        raise ValueError(",
+    need = ["if function.__name__ == '<lambda>':\n        raise ValueError(", "if not args or args[0] != 'channel':\n        raise ValueError(",
+            "sig = inspect.getfullargspec(function)", "args = sig.args", "if closure is not None:\n        raise ValueError(",
             "source = textwrap.dedent(source)", "if used_globals:\n        raise ValueError(", "leading_ws = '\\n' * (codeobj.co_firstlineno - 1)\n    return leading_ws + source"]
     ok = all(x in t for x in need)
     g = _src(find("gateway.py", "_find_non_builtin_globals"))
